@@ -412,3 +412,82 @@ def rule_token_agreement(chk, P, rid, floor=150):
                     if len(d2) == 1:
                         r.check(d2 == d, '%s->%s:dir' % (f.name, fn), ev['loc'],
                                 '%s (%s) calls %s (%s)' % (f.name, '/'.join(d), fn, '/'.join(d2)))
+
+
+# ------------------------------------------------------------------------------------------------------------------------------
+# X5: copies of one routine within a file (names equal up to numbers: sha1_/sha256_/sha512_create_extra_blocks, submit_flush_job_sha_1/256/512)
+
+import json as _json
+import os as _os
+
+COPY_BASELINE = _os.path.join(_os.path.dirname(_os.path.dirname(_os.path.abspath(__file__))), 'data', 'copy_siblings_baseline.json')
+
+
+def _norm_digits(s):
+    return re.sub(r'\d+', 'N', s)
+
+
+def _copy_features(f):
+    conds, calls = collections.Counter(), collections.Counter()
+    with guards.in_function(f, abstract=True):
+        for bid, b in f.blocks.items():
+            t = b.get('term')
+            if t and ('fullcond' in t or 'cond' in t) and t['kind'] in ('IfStmt', 'WhileStmt', 'ForStmt', 'DoStmt'):
+                conds[t['kind'] + ' ' + _norm_digits(guards.canon(guards.expand(f, t.get('fullcond') or t.get('cond'), bid)))] += 1
+        for b, i, ev in f.events(('call',)):
+            fn = ev['e'].get('fn') or (ev['e'].get('callee') or {}).get('f') or '?'
+            calls[_norm_digits(fn)] += 1
+    return conds, calls
+
+
+def copy_groups(P):
+    groups = {}
+    seen = set()
+    for tu in P.tus():
+        for f in P.funcs(tu):
+            if (f.name, f.loc) in seen:
+                continue
+            seen.add((f.name, f.loc))
+            st = _norm_digits(f.name)
+            if st != f.name:
+                groups.setdefault((_os.path.basename(f.loc.split(':')[0]), st), []).append(f)
+    return {k: v for k, v in groups.items() if len({m.name for m in v}) >= 2}
+
+
+def write_copy_baseline(P):
+    agree = []
+    for (fl, st), ms in sorted(copy_groups(P).items()):
+        fs = [_copy_features(m) for m in ms]
+        if all(x == fs[0] for x in fs):
+            agree.append([fl, st])
+    with open(COPY_BASELINE, 'w') as fh:
+        _json.dump({'what': 'groups of functions of one file whose names differ only in numbers and which take the same decisions and call the '
+                            'same routines (up to numbers) on the reference tree', 'groups': agree}, fh, indent=0)
+    return len(agree)
+
+
+def rule_copy_siblings(chk, P, rid, floor=100):
+    r = chk.rule(rid, 'copies of one routine within a file (names equal up to numbers) that take the same decisions and call the same routines on the '
+                      'reference tree still do: an edit to one copy only (a guard, a dropped call, a constant put where the size parameter '
+                      'stood) is a deviation', floor=floor)
+    if not _os.path.exists(COPY_BASELINE):
+        chk.broken('copy-sibling baseline missing')
+        return
+    base = {tuple(x) for x in _json.load(open(COPY_BASELINE))['groups']}
+    for key, ms in sorted(copy_groups(P).items()):
+        if key not in base:
+            continue
+        fs = [(m, _copy_features(m)) for m in ms]
+        # the majority form is the reference; with two members either may be the edited one
+        forms = collections.Counter(repr(sorted(x[1][0].items())) + repr(sorted(x[1][1].items())) for x in fs)
+        major = forms.most_common(1)[0][0]
+        for m, ft in fs:
+            mine = repr(sorted(ft[0].items())) + repr(sorted(ft[1].items()))
+            if mine == major:
+                r.ok('%s:%s' % (key[0], m.name), len(ms))
+                continue
+            other = next(x for x in fs if repr(sorted(x[1][0].items())) + repr(sorted(x[1][1].items())) == major)
+            dc = sorted('%s x%d' % (k, v) for k, v in (ft[0] - other[1][0]).items()) + sorted('%s x%d' % (k, v) for k, v in (ft[1] - other[1][1]).items())
+            oc = sorted('%s x%d' % (k, v) for k, v in (other[1][0] - ft[0]).items()) + sorted('%s x%d' % (k, v) for k, v in (other[1][1] - ft[1]).items())
+            r.bad('%s:%s' % (key[0], m.name), m.loc, '%s differs from its copy %s: only here %s; only there %s' % (
+                m.name, other[0].name, dc[:4] or '-', oc[:4] or '-'))
